@@ -213,6 +213,20 @@ def run(prog, world, sem, rep):
             ee = early_exits(sem, pv, sorted(comp)[0], zero_left)
             for (u, v_, line) in ee or []:
                 bad.append("line %d" % line)
+        # the loops walk the whole validator list: an iterator cut by take_while / skip / filter .. ends the walk early just like a `break`
+        from ..iters import droppers as _droppers
+        for blk in pv.body.calls():
+            if blk.idx not in pv.blocks or not pv.be.cfg.in_loop(blk.idx):
+                continue
+            e_ = pv.be.ev_call(blk.idx, blk.term)
+            if e_.op == "call" and e_.info.endswith("Iterator::next") and e_.args:
+                it_ = world.ident(e_.args[0], expand_ws=False)
+                # (the iterator variable of a `for` loop is loop-carried: its first alternative is the iterator as created)
+                for src_ in (it_.args if it_.op == "phi" else (it_,)):
+                    if src_.op == "out":
+                        continue
+                    for (nm_, c_) in _droppers(world, src_):
+                        bad.append("line %d (the loop walks the validators through `%s`)" % (blk.term.line, nm_))
         rep.ob("C02.f", "%s distributes until nothing is left" % pname, not bad and (not used or pname != "calculate_delegations"),
                "the distribution loop can be left at %s while an amount is still unplaced (the hub ignores the remainder): coins stay undelegated / unaccounted" % sorted(set(bad))
                if bad else "%d loop(s); early exits only when the remaining amount is zero" % seen_loops, where(pv.body), key="C02.f | %s" % pname)
